@@ -12,7 +12,8 @@ import z3
 from . import core, trig, proxy
 from .core import CTX, SR, SymBool, SymnpUnsupported, lift, explore
 
-REPO_DIR = '/repo'
+import os as _os
+REPO_DIR = _os.environ.get('SYMNP_REPO', '/repo')
 CONC_TOL = 1e-6
 
 
